@@ -779,8 +779,8 @@ def gen_weaver_footprint():
 # weaver.py -> Gen/WeaverGlue.v : the bodies of the Weaver methods as terms of the glue language of Lib/Glue.v
 # ==========================================================================================
 _GLUE_SKIP = {"from_2d_array", "from_dataframe", "from_csv"}   # static constructors (modelled by Weaver.from_2d; pandas/csv not modelled)
-_GLUE_BINOPS = {ast.Add: "+", ast.Sub: "-", ast.Mult: "*", ast.Div: "/"}
-_GLUE_CMPOPS = {ast.Lt: "<", ast.Gt: ">", ast.LtE: "<=", ast.GtE: ">=", ast.Eq: "==", ast.NotEq: "!=", ast.Is: "is", ast.IsNot: "isnot"}
+_GLUE_BINOPS = {ast.Add: "+", ast.Sub: "-", ast.Mult: "*", ast.Div: "/", ast.Pow: "**", ast.FloorDiv: "//"}
+_GLUE_CMPOPS = {ast.Lt: "<", ast.Gt: ">", ast.LtE: "<=", ast.GtE: ">=", ast.Eq: "==", ast.NotEq: "!=", ast.Is: "is", ast.IsNot: "isnot", ast.In: "in", ast.NotIn: "notin"}
 
 
 def _glist(items):
@@ -805,6 +805,11 @@ def _gexpr(e, where):
         return "(GSelf %s)" % _FIELDS[e.attr]
     if isinstance(e, ast.Name):
         return "(GVar %s)" % _cstr(e.id)
+    if isinstance(e, ast.Attribute) and _dotted(e) is not None and not _dotted(e).startswith("self."):
+        return "(GVar %s)" % _cstr(_dotted(e))      # np.float64, a.shape: a dotted name, given its meaning by the interpreter
+    if isinstance(e, ast.Attribute):
+        # attribute of a computed value (np.linspace(...).T): written as a method name with a leading dot and no call
+        return "(GMeth %s %s [])" % (rec(e.value), _cstr("." + e.attr))
     if isinstance(e, ast.Constant):
         if e.value is None:
             return "GNone"
@@ -814,11 +819,24 @@ def _gexpr(e, where):
             return "(GInt (%d)%%Z)" % e.value
         if isinstance(e.value, str):
             return "(GStr %s)" % _cstr(e.value)
+        if isinstance(e.value, float) and e.value == e.value and abs(e.value) != float("inf"):
+            from fractions import Fraction
+            fr = Fraction(repr(e.value))      # the decimal literal as written (the model works over exact rationals)
+            return "(GFloat (%d)%%Z %d%%positive)" % (fr.numerator, fr.denominator)
         raise TranslateError("%s: constant %r outside the glue grammar" % (where, e.value))
-    if isinstance(e, ast.UnaryOp) and isinstance(e.op, ast.USub) and isinstance(e.operand, ast.Constant) and isinstance(e.operand.value, int):
+    if isinstance(e, ast.UnaryOp) and isinstance(e.op, ast.USub) and isinstance(e.operand, ast.Constant) and isinstance(e.operand.value, int) \
+            and not isinstance(e.operand.value, bool):
         return "(GInt (%d)%%Z)" % (-e.operand.value)
+    if isinstance(e, ast.UnaryOp) and isinstance(e.op, ast.USub):
+        return "(GNeg %s)" % rec(e.operand)
+    if isinstance(e, ast.UnaryOp) and isinstance(e.op, ast.Not):
+        return "(GCall \"not\" [%s] [])" % rec(e.operand)
     if isinstance(e, ast.Tuple):
         return "(GTuple %s)" % _glist(rec(x) for x in e.elts)
+    if isinstance(e, ast.List):
+        return "(GList %s)" % _glist(rec(x) for x in e.elts)
+    if isinstance(e, ast.IfExp):
+        return "(GIfExp %s %s %s)" % (rec(e.test), rec(e.body), rec(e.orelse))
     if isinstance(e, ast.BinOp) and type(e.op) in _GLUE_BINOPS:
         return "(GBin %s %s %s)" % (_cstr(_GLUE_BINOPS[type(e.op)]), rec(e.left), rec(e.right))
     if isinstance(e, ast.Compare) and len(e.ops) == 1 and type(e.ops[0]) in _GLUE_CMPOPS:
@@ -837,11 +855,12 @@ def _gexpr(e, where):
         return "(GIdx %s %s)" % (rec(e.value), rec(s))
     if isinstance(e, ast.Call):
         args = []
+        kws = []
         for a in e.args:
             if isinstance(a, ast.Starred):
-                raise TranslateError("%s: *args outside the glue grammar" % where)
-            args.append(rec(a))
-        kws = []
+                kws.append("(%s, %s)" % (_cstr("*"), rec(a.value)))
+            else:
+                args.append(rec(a))
         for k in e.keywords:
             kws.append("(%s, %s)" % (_cstr(k.arg if k.arg is not None else "**"), rec(k.value)))
         name = _dotted(e.func)
@@ -873,6 +892,13 @@ def _glhs(t, where):
         return "(LSelf %s)" % _FIELDS[t.attr]
     if isinstance(t, ast.Name):
         return "(LVar %s)" % _cstr(t.id)
+    if isinstance(t, ast.Subscript) and isinstance(t.value, ast.Name):
+        s = t.slice
+        if isinstance(s, ast.Slice):
+            if s.step is not None or s.lower is None or s.upper is None:
+                raise TranslateError("%s: slice target outside the glue grammar: %s" % (where, ast.unparse(t)[:80]))
+            return "(LSlice %s %s %s)" % (_cstr(t.value.id), _gexpr(s.lower, where), _gexpr(s.upper, where))
+        return "(LIdx %s %s)" % (_cstr(t.value.id), _gexpr(s, where))
     raise TranslateError("%s: assignment target outside the glue grammar: %s" % (where, ast.unparse(t)[:80]))
 
 
@@ -892,6 +918,16 @@ def _gstmts(body, where):
             out.append("SRaise %s" % _cstr(st.exc.func.id))
         elif isinstance(st, ast.Return) and st.value is not None:
             out.append("SReturn %s" % _gexpr(st.value, w))
+        elif isinstance(st, ast.Expr) and isinstance(st.value, ast.Call):
+            out.append("SExpr %s" % _gexpr(st.value, w))
+        elif isinstance(st, ast.AugAssign) and type(st.op) in _GLUE_BINOPS:
+            out.append("SAug %s %s %s" % (_glhs(st.target, w), _cstr(_GLUE_BINOPS[type(st.op)]), _gexpr(st.value, w)))
+        elif isinstance(st, ast.For) and not st.orelse:
+            tg = st.target
+            names = [tg] if isinstance(tg, ast.Name) else list(tg.elts) if isinstance(tg, ast.Tuple) else None
+            if names is None or not all(isinstance(n_, ast.Name) for n_ in names):
+                raise TranslateError("%s: loop target outside the glue grammar: %s" % (w, ast.unparse(tg)[:80]))
+            out.append("SFor %s %s %s" % (_glist(_cstr(n_.id) for n_ in names), _gexpr(st.iter, w), _gstmts(st.body, where)))
         else:
             raise TranslateError("%s: statement outside the glue grammar: %s" % (w, ast.unparse(st)[:100]))
     return _glist(out)
@@ -968,6 +1004,103 @@ def gen_weaver_glue():
            ";\n".join("  (%s, %s, %s)" % (_cstr(a), _cstr(b), _cstr(c)) for a, b, c in imports) + "\n].\n",
            "Definition weaver_methods : list (string * (list (string * option gexpr) * list gstmt)) := [\n" + ";\n".join(rows) + "\n].\n"]
     return "\n".join(out)
+
+
+
+# ==========================================================================================
+# module-level functions as glue terms: Gen/MatchGlue.v, Gen/ProcessGlue.v, Gen/UtilsGlue.v
+# ==========================================================================================
+def _module_imports(tree, fname, allow_defs):
+    """module-level imports (module, name, bound name); any other module-level statement except the listed definitions,
+    docstrings and plain constant assignments is rejected (a definition could shadow an imported name)"""
+    imports, defs = [], []
+    for node in tree.body:
+        if isinstance(node, ast.Expr) and isinstance(node.value, ast.Constant) and isinstance(node.value.value, str):
+            continue
+        if isinstance(node, ast.Import):
+            for al in node.names:
+                imports.append(("", al.name, al.asname or al.name))
+        elif isinstance(node, ast.ImportFrom):
+            for al in node.names:
+                if al.name == "*":
+                    raise TranslateError("%s:%d: star import" % (fname, node.lineno))
+                imports.append(("." * node.level + (node.module or ""), al.name, al.asname or al.name))
+        elif isinstance(node, ast.FunctionDef):
+            if node.decorator_list:
+                raise TranslateError("%s: decorator on %s" % (fname, node.name))
+            defs.append(node.name)
+        else:
+            raise TranslateError("%s:%d: module-level statement outside the glue grammar: %s" % (fname, node.lineno, ast.unparse(node)[:80].split("\n")[0]))
+    if len(set(defs)) != len(defs):
+        raise TranslateError("%s: a function is defined twice" % fname)
+    clash = set(defs) & {b for _, _, b in imports}
+    if clash:
+        raise TranslateError("%s: definitions shadow imports: %s" % (fname, sorted(clash)))
+    return imports, defs
+
+
+def _fun_row(fn, fname, bound):
+    a = fn.args
+    if a.vararg or a.kwonlyargs or a.posonlyargs:
+        raise TranslateError("%s: parameter kinds of %s outside the glue grammar" % (fname, fn.name))
+    names = [x.arg for x in a.args]
+    defaults = [None] * (len(names) - len(a.defaults)) + list(a.defaults)
+    params = []
+    for nm, d in zip(names, defaults):
+        params.append("(%s, %s)" % (_cstr(nm), "None" if d is None else "Some %s" % _gexpr(d, "%s:%s default" % (fname, fn.name))))
+    if a.kwarg is not None:
+        params.append("(%s, None)" % _cstr("**" + a.kwarg.arg))
+    local_names = set(names) | ({a.kwarg.arg} if a.kwarg is not None else set())
+    for sub in (n for st in fn.body for n in ast.walk(st)):
+        if isinstance(sub, ast.Name) and isinstance(sub.ctx, (ast.Store, ast.Del)):
+            local_names.add(sub.id)
+        if isinstance(sub, (ast.FunctionDef, ast.Lambda, ast.ClassDef, ast.Import, ast.ImportFrom, ast.Global, ast.Nonlocal,
+                            ast.With, ast.Try, ast.While, ast.NamedExpr, ast.ListComp, ast.GeneratorExp, ast.Delete)):
+            raise TranslateError("%s:%d: %s in %s outside the glue grammar" % (fname, sub.lineno, type(sub).__name__, fn.name))
+    clash = local_names & bound
+    if clash:
+        raise TranslateError("%s: %s rebinds %s" % (fname, fn.name, sorted(clash)))
+    return "  (%s, (%s,\n     %s))" % (_cstr(fn.name), _glist(params), _gstmts(fn.body, "%s:%s" % (fname, fn.name)))
+
+
+def _gen_fun_table(fname, funcs, defname, what):
+    tree = ast.parse(_src(fname))
+    imports, defs = _module_imports(tree, fname, funcs)
+    bound = {b for _, _, b in imports} | set(defs) | {"len", "range", "zip", "int", "abs", "min", "max"}
+    rows = []
+    for name in funcs:
+        fn = _find_fun(tree, name)
+        # the function itself may be called recursively by name only if it is in the table; its own name is not a rebind
+        rows.append(_fun_row(fn, fname, bound - {name}))
+    out = ["(** GENERATED by tools/translate.py from /repo/src/traffic_weaver/%s — do not edit." % fname,
+           "    %s: parameters (with defaults) and bodies in the glue language of Lib/Glue.v. *)" % what,
+           "From TW Require Export Lib.Glue.", "Open Scope string_scope.", "",
+           "Definition %s_imports : list (string * string * string) := [\n" % defname +
+           ";\n".join("  (%s, %s, %s)" % (_cstr(a), _cstr(b), _cstr(c)) for a, b, c in imports) + "\n].\n",
+           "(** every function defined at module level (the ones not translated are listed too: a call resolves to them) *)",
+           "Definition %s_defined : list string := %s.\n" % (defname, _glist(_cstr(d) for d in defs)),
+           "Definition %s_functions : list (string * (list (string * option gexpr) * list gstmt)) := [\n" % defname + ";\n".join(rows) + "\n].\n"]
+    return "\n".join(out)
+
+
+@target("MatchGlue")
+def gen_match_glue():
+    return _gen_fun_table("match.py", ["integral_matching_reference_stretch", "_interval_integral_matching_stretch", "_integral_matching_stretch"],
+                          "match", "The three functions of match.py")
+
+
+@target("ProcessGlue")
+def gen_process_glue():
+    return _gen_fun_table("process.py", ["interpolate", "repeat", "trend", "truncate", "normalize", "spline_smooth"],
+                          "process", "Functions of process.py")
+
+
+@target("UtilsGlue")
+def gen_utils_glue():
+    return _gen_fun_table("sorted_array_utils.py", ["append_one_sample", "oversample_linspace", "oversample_piecewise_constant", "extend_linspace",
+                                                    "extend_constant", "rectangle_integral", "trapezoid_integral", "integral",
+                                                    "find_closest_element_indices_to_values"],
+                          "utils", "Functions of sorted_array_utils.py")
 
 
 # MAIN-BLOCK (keep last)
